@@ -1002,7 +1002,9 @@ Definition run_ns_body (args : list N) : list N :=
 
 (* 121: whole class definitions, nested (Parse/ClassDef.v body): statement budget, declarator budget, in-class flag, class id, '~' id,
    access in force (token type), the number of (name, '~' name) pairs and the pairs, tokens.  Output: 0, rest length, the anonymous-name
-   counter, item count, items: 0 access citem (as 119) | 1 nitem (as 120) | 2 access key name (forward declaration) |
+   counter, item count, items: 0 access citem (as 119) | 1 nitem (as 120) | 2 access key-length key name (forward declaration) |
+   7 access key name <pq> (enum with a base, declared only) | 8 access, nine flags, key, name id, anonymous, typedef, has-base [<pq>],
+   enumerators as 99, what follows as 112 | 9 access, using as 98 |
    3 access, nine flags, key, name id, anonymous, typedef, final, explicit, base count, bases as 85, member count, members,
      what follows the brace as 112 (kind, count, entries) |
    4 inline, name count, names, member count, members (namespace) | 5 alias, name count, names | 6 linkage string id, member count, members *)
@@ -1017,9 +1019,16 @@ Fixpoint enc_item (it : ClassDef.item) : list N :=
   match it with
   | ClassDef.IC acc c => 0 :: acc :: enc_citem c
   | ClassDef.INs x => 1 :: enc_nitem x
-  | ClassDef.IFwd acc key nm => [2; acc; key; nm]
+  | ClassDef.IFwd acc key nm => 2 :: acc :: nlen key :: key ++ [nm]
+  | ClassDef.IEnumFwd acc key nm q => 7 :: acc :: nlen key :: key ++ nm :: enc_pq q
+  | ClassDef.IEnum acc m key nm anon td b items fin =>
+      8 :: acc :: enc_mods m ++ nlen key :: key ++ nm :: bN anon :: bN td ::
+        match b with Some q => 1 :: enc_pq q | None => [0] end ++ enc_enumerators items ++ enc_fin fin
+  | ClassDef.IUsing acc (UDir root ns) => 9 :: acc :: 1 :: bN root :: nlen ns :: ns
+  | ClassDef.IUsing acc (UDecl q) => 9 :: acc :: 2 :: enc_pq q
+  | ClassDef.IUsing acc (UAlias a t) => 9 :: acc :: 3 :: a :: (let x := enc_ty t in nlen x :: x)
   | ClassDef.IClass acc (ClassDef.mkCD m key bn anon td fi ex bs members fin) =>
-      3 :: acc :: enc_mods m ++ key :: bn :: bN anon :: bN td :: bN fi :: bN ex :: nlen bs ::
+      3 :: acc :: enc_mods m ++ nlen key :: key ++ bn :: bN anon :: bN td :: bN fi :: bN ex :: nlen bs ::
         flat_map (fun b => [b_access b; b_name b; bN (b_virtual b); bN (b_pack b)]) bs ++
         nlen members :: flat_map enc_item members ++ enc_fin fin
   | ClassDef.INamespace il names members => 4 :: bN il :: nlen names :: names ++ nlen members :: flat_map enc_item members
